@@ -321,6 +321,9 @@ def _generate_qpd_weights(
                 conditional_probabilities[map_ids] = probability
                 if map_ids == ():
                     weight_to_sample = np.sum(probability)
+                    if weight_to_sample == 0:
+                        # Nothing non-negligible is left to sample.
+                        return retval
                     conditional_probabilities[map_ids] /= weight_to_sample
 
     # Loop through each gate and sample from the remainder of the distribution.
